@@ -97,6 +97,8 @@ def main():
         if pid not in CLAIMED:
             continue
         tech, text, note, ref = CLAIMED[pid]
+        if pid != "C20":
+            tech += "; thorough tier additionally: coverage-guided fuzzing (libFuzzer via cargo-fuzz, 16 workers, fixed -runs/-seed) whose input bytes are the entropy stream of the same proptest strategy and whose oracle is the same, findings replayed from their JSON case in the ordinary build before they are reported"
         checks.append({
             "property_id": pid,
             "quick_cmd": "./check %s quick" % pid,
@@ -122,6 +124,9 @@ def main():
             {"name": "vcheck", "path": "/verif/harness",
              "serves_properties": sorted(CLAIMED.keys()),
              "kind_free_text": "Rust harness crate (path deps into /repo) with a sharded proptest runner: 16 fixed-seed shards, explicit oracles, shrinking to JSON replay files, known-findings matching"},
+            {"name": "prop (libFuzzer)", "path": "/verif/harness/fuzz",
+             "serves_properties": sorted(k for k in CLAIMED.keys() if k != "C20"),
+             "kind_free_text": "cargo-fuzz target (nightly, --no-cfg-fuzzing, -O) that turns libFuzzer's input into the entropy of the property's own proptest strategy (proptest pass-through generator, local copy with a one-function patch) and runs the property's own oracle; used by the thorough tier (tools/fuzz_phase.py)"},
         ],
         "checks": checks,
         "not_applicable": [{"property_id": p, "reason": PENDING_REASON} for p in ALL if p not in CLAIMED],
